@@ -398,7 +398,7 @@ def run_change(b: Builder, sc, seed):
     alg = _make_alg(algname, K, T, q)
     keys = jax.random.split(jax.random.key(seed), NPW)
     base = dict(model=sc["model"], o=sc["o"], prop=sc["prop"], model2=sc["model2"], o2=sc["o2"], alg=algname, K=K,
-                grow=int(bool(sc.get("grow"))),
+                grow=int(bool(sc.get("grow"))), shrink=int(bool(sc.get("shrink"))),
                 propkind=(b.props[sc["prop"]]["kind"] if sc["prop"] != "none" else "none"))
 
     fixed_cls = _fixed_alg_class()
@@ -768,7 +768,7 @@ ROLE_A = {
     "C25": (["marg"], ["TablesNormalized", "MarginalUnbiased", "MarginalExact", "MarginalGuardCoverage"]),
     "C26": (["smc", "change"], ["TablesNormalized", "SamplerNormalized", "WeightIsRatio", "EvidenceUnbiased",
                                 "EvidenceUnbiasedK", "PAlgIsDistribution", "PAlgK1IsProposal", "DensitySampler",
-                                "DensityEstimator", "PAlgApproachesPosterior", "ChangeProper", "ChangeGrowMass", "ChangeParticle"]),
+                                "DensityEstimator", "PAlgApproachesPosterior", "ChangeProper", "ChangeGrowMass", "ChangeShrinkMass", "ChangeParticle"]),
     "C27": (["mh"], ["TablesNormalized", "MHAntisymmetric", "MHDetailedBalance", "MHStationary", "MHOldArgsDiffers", "MHArgsAntisymmetric", "MHVecLaws"]),
 }
 
@@ -833,16 +833,23 @@ def _select(prop_id, cases, tier, seed):
             k = (c["model"], c["prop"] != "none", c["model2"] != c["model"])
             (pick if k not in seen else rest).append(c)
             seen.add(k)
-        same = [c for c in pick + rest if not c.get("grow")][:8]
+        same = [c for c in pick + rest if not c.get("grow") and not c.get("shrink")][:8]
         # "one more observation arrives": one per model, preferring scenarios whose proposal proposed the site
         grow, seen = [], set()
         for c in sorted((c for c in chg if c.get("grow")), key=lambda c: c["prop"] == "none"):
             if c["model"] not in seen:
                 seen.add(c["model"])
                 grow.append(c)
-        chg = same + grow[:6]
+        # "an observation is withdrawn": the new target redraws it; one per model by seed
+        shrink, seen = [], set()
+        for c in (c for c in chg if c.get("shrink")):
+            if c["model"] not in seen:
+                seen.add(c["model"])
+                shrink.append(c)
+        chg = same + grow[:6] + shrink[:5]
     else:
-        chg = [c for c in chg if not c.get("grow")][:300] + [c for c in chg if c.get("grow")][:200]
+        chg = ([c for c in chg if not c.get("grow") and not c.get("shrink")][:300] + [c for c in chg if c.get("grow")][:200]
+               + [c for c in chg if c.get("shrink")][:200])
     for n, c in enumerate(smc):
         if tier == "quick":
             c["algs"] = [[("imp", 1), ("k1", 1)][n % 2]] if c["K"] == 1 else [("k2", 2)]
